@@ -47,7 +47,8 @@ CLAIMS = {
              "precede the first member store, that a failing fit cannot leave a modified unprotected table, and that the C wrapper maps "
              "throws to non-zero. Both container instantiations. Inside the solver only one memory-safety clause is decided: cached CHOLMOD array "
              "pointers are not read after a call that may move or free them, no field is read through a released object (SP-1/2); and every "
-             "self-recursive routine reached from fit decreases a parameter by 1 and returns at the least value a caller can pass (RT-1). Does not "
+             "self-recursive routine reached from fit decreases a parameter by 1 and returns at the least value a caller can pass (RT-1); every variable-length array of the C fitter has an extent >= 1 over the "
+             "admitted orders and dimension counts (KB-6f). Does not "
              "decide index arithmetic inside CHOLMOD/GLAM for valid arguments.",
         note=TRUST + "The hazard table (FIT_OBLIGATIONS) is the trusted specification of which relations are needed.",
         technique="required-guard dominance check with relational normal forms over the instantiated AST/CFG"),
